@@ -6,7 +6,7 @@ import sys
 REPO = os.environ.get('BRIDGE_ENV_REPO', '/repo')
 VERIF = os.path.dirname(os.path.dirname(os.path.abspath(__file__)))
 
-CONTRACT_MODULES = ['score', 'leaves', 'contract', 'bidding', 'playing', 'hands', 'pbn_deal', 'protocol', 'framing', 'json_io', 'server_main', 'pbn_io', 'server_seat', 'client']
+CONTRACT_MODULES = ['score', 'leaves', 'contract', 'bidding', 'playing', 'hands', 'pbn_deal', 'protocol', 'framing', 'json_io', 'server_main', 'pbn_io', 'server_seat', 'client', 'plumbing']
 
 
 def load(modules=None):
